@@ -42,11 +42,11 @@ Print Assumptions C11_dead_detected.
    pending and not running; no duplicate in the queue; ids below the counter) holds after every sequence of
    submit / wait / cancel / stop calls and environment events, for the start policy the source has now. *)
 Theorem C11_dead_detected_always : forall ops w e i,
-  In e (states start_policy_src (init_ex w) ops) -> In i (dead_ids e) ->
+  In e (states start_policy_src wait_policy_src (init_ex w) ops) -> In i (dead_ids e) ->
   done (fut_of (consume e) i) = true /\ has (running (consume e)) i = false.
-Proof. exact (dead_detected_always start_policy_src). Qed.
+Proof. exact (dead_detected_always start_policy_src wait_policy_src). Qed.
 Print Assumptions C11_dead_detected_always.
 
-Theorem C11_executor_invariant : forall ops w e, In e (states start_policy_src (init_ex w) ops) -> ExInv e.
-Proof. exact (fun ops w e H => ExInv_states start_policy_src ops (init_ex w) (ExInv_init w) e H). Qed.
+Theorem C11_executor_invariant : forall ops w e, In e (states start_policy_src wait_policy_src (init_ex w) ops) -> ExInv e.
+Proof. exact (fun ops w e H => ExInv_states start_policy_src wait_policy_src ops (init_ex w) (ExInv_init w) e H). Qed.
 Print Assumptions C11_executor_invariant.
